@@ -294,7 +294,8 @@ Section Exec.
     | KCall =>
         if negb (value =? 0) && (bal (dat s) (self cx) <? value) then (OErr err_balance, [], s)
         else
-          let '(id, s1) := snapshot s in
+          let id := fst (snapshot s) in
+          let s1 := snd (snapshot s) in
           let go (s2 : state) : rres :=
             let s3 := push (transfer (self cx) target value) s2 in
             let c := code_of (dat s3) target in
@@ -306,13 +307,16 @@ Section Exec.
     | KCallCode =>
         if bal (dat s) (self cx) <? value then (OErr err_balance, [], s)
         else
-          let '(id, s1) := snapshot s in
+          let id := fst (snapshot s) in
+          let s1 := snd (snapshot s) in
           finish_call id false (rec (mkCtx (self cx) (static cx) (depth cx + 1)) (code_of (dat s1) target) s1)
     | KDelegate =>
-        let '(id, s1) := snapshot s in
+        let id := fst (snapshot s) in
+          let s1 := snd (snapshot s) in
         finish_call id true (rec (mkCtx (self cx) (static cx) (depth cx + 1)) (code_of (dat s1) target) s1)
     | KStatic =>
-        let '(id, s1) := snapshot s in
+        let id := fst (snapshot s) in
+          let s1 := snd (snapshot s) in
         let s2 := push (add_balance target 0) s1 in
         finish_call id true (rec (mkCtx target true (depth cx + 1)) (code_of (dat s2) target) s2)
     end.
@@ -330,7 +334,8 @@ Section Exec.
         if negb (nonce_of (dat s2) address =? 0) || negb (code_of (dat s2) address =? 0)
         then (OErr err_collision, [], s2)
         else
-          let '(id, s3) := snapshot s2 in
+          let id := fst (snapshot s2) in
+          let s3 := snd (snapshot s2) in
           let s4 := push (get_or_new address) s3 in
           let s5 := push (set_nonce address 1) s4 in
           let s6 := push (transfer (self cx) address value) s5 in
